@@ -94,7 +94,7 @@ def run(chk: Check) -> int:
     rng = chk.rng
     ntr = 60 if quick else 1500
     for k in range(ntr):
-        style = k % 5
+        style = k % 6
         n = rng.choice([0, 1, 2, 3, 4, 7, 16, 33, 64, 100]) if style else rng.randint(0, 300)
         data = bytearray(rng.randrange(256) for _ in range(n))
         if style == 1 and n >= 0:  # append the correct FCS so that is_good must be True at the end
@@ -105,6 +105,15 @@ def run(chk: Check) -> int:
             data += bytes([c >> 8, c & 0xFF]) if rng.random() < 0.5 else bytes([(c & 0xFF) ^ 1, c >> 8])
         elif style == 3:
             data = bytearray(rng.choice([0x7E, 0x7D, 0, 0xFF]) for _ in range(n))
+        elif style == 4:
+            # a prefix that ends with its own FCS (is_good must be True there), then more octets (must be False again),
+            # then possibly a second good point: the register has no memory of earlier good states
+            c = F.compute_checksum(bytes(data), 0, len(data))
+            data += bytes([c & 0xFF, c >> 8]) + bytes(rng.randrange(256) for _ in range(rng.randint(1, 12)))
+            if rng.random() < 0.5:
+                c = F.compute_checksum(bytes(data), 0, len(data))
+                data += bytes([c & 0xFF, c >> 8])
+                data += bytes(rng.randrange(256) for _ in range(rng.randint(0, 3)))
         traces.append(record(bytes(data), rng))
     # canaries: corrupt one recorded value
     for k, kind in enumerate(["ret", "checksum", "good", "win"]):
